@@ -427,3 +427,8 @@ MUTANTS += [
          old="        self.norms_ = (X**2).sum(axis=abs(self._axis - 1))\n        self.hausdorff_ = np.full(X.shape[self._axis], np.inf)\n        self.hausdorff_at_select_ = np.full(X.shape[self._axis], np.inf)\n\n        if isinstance(self.initialize, (np.ndarray, list)):",
          new="        self.norms_ = (X**2).sum(axis=abs(self._axis - 1))\n        self.hausdorff_ = np.full(X.shape[self._axis], np.inf)\n        if not hasattr(self, 'hausdorff_at_select_') or len(self.hausdorff_at_select_) != X.shape[self._axis]:\n            self.hausdorff_at_select_ = np.full(X.shape[self._axis], np.inf)\n\n        if isinstance(self.initialize, (np.ndarray, list)):"),
 ]
+
+MUTANTS += [
+    dict(name="revert_fix_cur_warm_relative_tol", prop="C08", file=SEL, count=2,
+         old="                > self.tolerance\n                * max(1.0, np.linalg.norm(np.take(X, [c], axis=self._axis)))\n", new="                > self.tolerance\n"),
+]
